@@ -155,6 +155,11 @@ func Run[I any, O any](sp *Spec[I, O]) *Stats {
 				}()
 			}
 			wg.Wait()
+			if over, why := vrep.MemoryExceeded(); over {
+				aborted = true
+				st.Capped = fmt.Sprintf("%s at depth %d", why, depth)
+				break
+			}
 			for i, rs := range results {
 				if rs == nil && len(part[i].ops) > 0 {
 					aborted = true
